@@ -19,6 +19,7 @@ of the sync Interests handed to the face during the step, the number of on_missi
 during the step; plus, for keeping spec and instance in step, the public `state` and the time
 left until the public `next_sync_timing`.
 """
+import gc
 import secrets
 import time
 
@@ -358,6 +359,7 @@ class Scenario:
     def recv(self, p, j=0, react=0):
         self.r = j * self.rstep
         self.react, self.published = react, False
+        n0 = len(self.sess.loop.errors)
         try:
             exc = deliver(self.sess, self.face, self.world.sync_interest(p), timers_now=False)
         finally:
@@ -369,7 +371,15 @@ class Scenario:
         if self.published and not self.quiet:
             # as in publish(): whatever is due now was scheduled by the publication itself
             self.sess.loop.settle(timers_now=True)
-        return self.post()
+        post = self.post()
+        if p['k'] != 'sv':
+            # an undecodable sync Interest must be ignored quietly: an exception that escapes sync_handler
+            # (it surfaces in the loop's exception handler when the handler task is released) is reported
+            if len(self.sess.loop.errors) == n0:
+                gc.collect()
+            new = [c.get('exception') for c in self.sess.loop.errors[n0:]]
+            post['raised'] = ','.join(sorted({type(e).__name__ for e in new if e is not None}))
+        return post
 
     def recv_wire(self, wire):
         """hand a packet produced elsewhere (a peer's sync Interest) to this instance's application"""
